@@ -501,6 +501,7 @@ func judgeProg(c ProgCase) *eng.Fail {
 		}
 		rs.log = nil
 		implLog = nil
+		storeBefore, _ := refLocals(rs.store)
 		want, rerr := rs.eval(rt)
 		if rerr != nil && rerr != errRef {
 			note("tainted_condition_skipped", 1)
@@ -515,7 +516,18 @@ func judgeProg(c ProgCase) *eng.Fail {
 			if o.err == nil {
 				return eng.F("C07/missing-error", "%s: must be an error, got %s", what, show(o.val))
 			}
-			return nil
+			// a failed program that had bound nothing before it failed leaves every local as it was, and the
+			// history goes on; what a program keeps of the bindings it made before failing is not fixed
+			if storeAfter, taint := refLocals(rs.store); taint || storeAfter != storeBefore || len(rs.log) > 0 {
+				return nil
+			}
+			tp, _ := cachedParse("this")
+			to := safeResolve(r, bg, tp.Expression)
+			cur, _ := to.val.(map[string]interface{})
+			if gl := localsOf(cur); gl != storeBefore {
+				return eng.F("C07/locals", "%s failed without having bound anything: locals afterwards {%s}, before {%s}", what, gl, storeBefore)
+			}
+			continue
 		}
 		if o.err != nil {
 			return eng.F("C07/unexpected-error", "%s: %v", what, o.err)
@@ -655,7 +667,8 @@ func (g *c07Gen) gen(n int) []string {
 
 var c07Pool = []string{"$a", "$a = 1", "$a = $b", "$b = [$a, x]", "$a = 2, $b = $a", "[$a, $b, x]", "rec($a = 3, $a)", "$a ? ($b = 1) : ($b = 2)", "x", "$b = x + 1", "$a = [$a, $a]", "rec($b, $b = 7), $b", "$c = $a, $a = $b, $b = $c", "[$a = 1, $a = 2, $a]", "$a = 1 + 2", "$b = 2 + 2", "[1 + 1, 2 + 2, $a]",
 	"$a = 1, sp($a = 5, [$a, 7]...)", "sp($b = 2, [$b, $b = 3]...), $b", "sp($a, [$a = 9, $a]...)", "sp(rec(1, 2), [rec(3, 4), $a]...)",
-	"$a = $b = 3", "$a = $b = $a = 1, [$a, $b]", "[$a = $b = 2, $a, $b]", "rec($a = $b = 5, $b), $a", "x ? $a = $b = 7 : 0, $b"}
+	"$a = $b = 3", "$a = $b = $a = 1, [$a, $b]", "[$a = $b = 2, $a, $b]", "rec($a = $b = 5, $b), $a", "x ? $a = $b = 7 : 0, $b",
+	"nofn(1)", "x(2)", "rec(1)", "[1, nofn(2)]", "x = 1"}
 
 func runC07(w *eng.W) {
 	W = w
